@@ -28,6 +28,21 @@ def cond_mentions(f, cond, *needles):
     return all(n in ps for n in needles)
 
 
+def queue_empty_fact(f):
+    """must-fact "send_buff_ is empty" along the CFG of f: established by an emptiness test edge on send_buff_.readableSize(),
+    destroyed by send_buff_.append and by any user callback (which may call send())"""
+    def subj(sid):
+        st = f.s(sid)
+        return st is not None and st['k'] in q.CALL_KINDS and st.get('fn') == 'readableSize' and 'obj' in st and (f.field_of(st['obj']) or '').endswith('BufferedFd::send_buff_')
+    def kill(pt, st):
+        if st['k'] in q.CALL_KINDS and st.get('fn') in ('append', 'hasWritten', 'swap', 'operator=') and 'obj' in st and (f.field_of(st['obj']) or '').endswith('BufferedFd::send_buff_'):
+            return True
+        if st['k'] == 'CXXOperatorCallExpr' and st.get('op') == '()' and st.get('cls', '').startswith('std::function<'):
+            return True
+        return False
+    return q.must_fact(f, lambda b, k: q.zero_test_edge(f, b, k, subj), kill)
+
+
 def r1(ctx, prog):
     ctx.rule('C06.R1', 'A5 write-arming invariant "running and bytes queued => write event armed" (and "not running => not armed"), decided per '
                        'state-changing site: enable() arms when the queue is non-empty, send() arms after every queued remainder of a direct write, the '
@@ -69,14 +84,13 @@ def r1(ctx, prog):
                    'remainder queued after a direct write attempt is followed by sp_write_event_->enable() on every path' if ok else
                    'bytes are queued after a direct write attempt without arming the write event on some path: they are never written', where=s.loc(a['i']))
     w = prog.fn1(B + '::onWriteCallback')
+    empty = queue_empty_fact(w)
     for d in wev(w, 'disable'):
-        gs = [(c, k) for c, k, b in w.cfg.controlling_branches(q.pt(w, d)) if cond_mentions(w, c, 'send_buff_.readableSize()')]
-        ok = False
-        for c, k in gs:
-            x = w.s(w.strip_casts(c))
-            if x['k'] == 'BinaryOperator' and x.get('op') == '==' and w.s(w.strip_casts(x['ch'][1])).get('cv') == 0 and k == 0:
-                ok = True
-        ctx.ob('C06.R1', '%s|disarm-when-empty' % w.name, ok, 'write event disabled only under send_buff_.readableSize() == 0', where=w.loc(d['i']))
+        ok = bool(empty.get(q.pt(w, d)))
+        ctx.ob('C06.R1', '%s|disarm-when-empty' % w.name, ok,
+               'write event disabled only where the send queue is known empty (test on every path, no user callback or append in between)' if ok else
+               'the write event is disabled at a point where the queue is not known to be empty (no emptiness test on some path, or a user callback / append '
+               'ran since the test and may have queued bytes): queued bytes are never written', where=w.loc(d['i']))
     dis = prog.fn1(B + '::disable')
     st = state_store(dis, 'kInited')
     da = wev(dis, 'disable')
@@ -147,13 +161,10 @@ def r3(ctx, prog):
     inv = q.invokes(w, 'send_complete_cb_')
     if not inv:
         raise AnalysisBroken('onWriteCallback: send_complete_cb_ invoke not found')
+    empty = queue_empty_fact(w)
     for i in inv:
-        ok = False
-        for c, k, b in w.cfg.controlling_branches(q.pt(w, i)):
-            x = w.s(w.strip_casts(c))
-            if cond_mentions(w, c, 'send_buff_.readableSize()') and x['k'] == 'BinaryOperator' and x.get('op') == '==' and k == 0 and w.s(w.strip_casts(x['ch'][1])).get('cv') == 0:
-                ok = True
-        ctx.ob('C06.R3', '%s|complete-when-empty' % w.name, ok, 'send_complete_cb_ only under send_buff_.readableSize() == 0', where=w.loc(i['i']))
+        ok = bool(empty.get(q.pt(w, i)))
+        ctx.ob('C06.R3', '%s|complete-when-empty' % w.name, ok, 'send_complete_cb_ only where the send queue is known empty', where=w.loc(i['i']))
     wr = [st for st in w.calls() if st.get('fn') == 'write' and 'obj' in st and (w.field_of(st['obj']) or '').endswith('BufferedFd::fd_')]
     hr = sb(w, 'hasRead')
     ok = False
@@ -166,9 +177,10 @@ def r3(ctx, prog):
                         wd = d
         a = w.s(w.strip_casts(hr[0]['args'][0]))
         ok = wd is not None and a.get('d') == wd['d'] and [w.path(x) for x in wr[0]['args']] == ['send_buff_.readableBegin()', 'send_buff_.readableSize()']
-        g = [c for c, br in q.lexical_guards(w, hr[0]['i']) if br == 'then' and wd and any(w.stmts[z].get('d') == wd['d'] for z in w.walk(c) if w.stmts[z]['k'] == 'DeclRefExpr')]
-        ok = ok and bool(g)
-    ctx.ob('C06.R3', '%s|consume-written' % w.name, ok, 'write(readableBegin, readableSize) and hasRead(wsize) under wsize >= 0', where=w.loc(w.body))
+        from tbxlint import ival
+        lo, hi = ival.guard_bounds(w, wd['d'], q.pt(w, hr[0])) if wd else (None, None)
+        ok = ok and lo is not None and lo >= 0
+    ctx.ob('C06.R3', '%s|consume-written' % w.name, ok, 'write(readableBegin, readableSize) and hasRead(wsize) on the wsize >= 0 side of the error test', where=w.loc(w.body))
 
 
 def r4(ctx, prog):
